@@ -556,6 +556,9 @@ class Engine:
         return v
 
     def _guess_variant(self, enumv, vname):
+        ext = getattr(self, 'ext_enums', {}).get(enumv.name)       # harness-supplied {variant: discriminant} for an enum of another crate
+        if ext and vname in ext:
+            return ext[vname]
         for nm, vs in STD_ENUMS.items():
             if vname in vs:
                 if nm in STD_DISCR:
